@@ -507,8 +507,81 @@ class Exec(Engine):
         if stmt.orelse:
             raise OutOfSubset("for/else")
         out = []
+        adj = self._zip_adjacent(stmt.iter, st)
+        if adj is not None:
+            for s, xs in self.ev(ast.copy_location(ast.Name(id=adj, ctx=ast.Load()), stmt.iter), st):
+                if xs.t[0] == "seq":
+                    out += self.for_over_adjacent(stmt, s, xs, adj)
+                else:
+                    for s2, coll in self.ev(stmt.iter, s):
+                        out += self.for_over(stmt, s2, coll)
+            return out
         for s, coll in self.ev(stmt.iter, st):
             out += self.for_over(stmt, s, coll)
+        return out
+
+    def _zip_adjacent(self, it, st):
+        """`zip(xs[:-1], xs[1:])` over ONE plain name xs -> 'xs'; every other zip -> None (b_zip then refuses symbolic sequences)."""
+        if not (isinstance(it, ast.Call) and isinstance(it.func, ast.Name) and it.func.id == "zip" and "zip" not in st.vars
+                and len(it.args) == 2 and not it.keywords):
+            return None
+        a, b = it.args
+        for x in (a, b):
+            if not (isinstance(x, ast.Subscript) and isinstance(x.value, ast.Name) and isinstance(x.slice, ast.Slice) and x.slice.step is None):
+                return None
+        if a.value.id != b.value.id:
+            return None
+        ua, lb = a.slice.upper, b.slice.lower
+        if not (a.slice.lower is None and isinstance(ua, ast.UnaryOp) and isinstance(ua.op, ast.USub) and isinstance(ua.operand, ast.Constant)
+                and type(ua.operand.value) is int and ua.operand.value == 1):
+            return None
+        if not (b.slice.upper is None and isinstance(lb, ast.Constant) and type(lb.value) is int and lb.value == 1):
+            return None
+        return a.value.id
+
+    def for_over_adjacent(self, stmt, st, xs, xsname):
+        """for a, b in zip(xs[:-1], xs[1:]) over a Seq xs: the pairs (xs[i], xs[i+1]) for i = 0 .. len(xs)-2, IN ORDER. The invariant may
+        mention the ghost 'idx' = number of pairs already processed (0 on entry, max(len(xs)-1, 0) on exit)."""
+        k, header, lc = self.loop_contract(stmt)
+        if lc is None:
+            raise ContractDrift(f"loop {k} ('{header}') of {self.name} has no invariant")
+        mods = assigned_names(stmt.body)
+        if xsname in mods or xsname in self._target_names(stmt.target):
+            raise OutOfSubset("sequence modified while its adjacent pairs are iterated")
+        et = xs.t[1]
+        ln = z3.Length(xs.x)
+        n = z3.If(ln >= 1, ln - 1, z3.IntVal(0))
+        entry = {k_: deep_copy(v_) for k_, v_ in st.vars.items()}
+        for e, t in self.spec_conj(lc["invariant"], st, {"idx": vint(0)}, entry):
+            self.oblige(st, t, "inv.init", f"loop{k}.inv.init[{e[:50]}]", stmt.lineno)
+        it = st.fork()
+        self.havoc(it, (mods | self._target_names(stmt.target)) - {xsname})
+        idx = z3.Int(fresh_name("idx"))
+        ex = it.fork()
+        it.assume(z3.And(idx >= 0, idx < n))
+        for e, t in self.spec_conj(lc["invariant"], it, {"idx": vint(idx)}, entry):
+            it.assume(t)
+        pair = V(("tuple", (et, et)), (from_term(et, xs.x[idx]), from_term(et, xs.x[idx + 1])))
+        self.assign(stmt.target, pair, it, stmt)
+        it.trace.append(f"loop{k}:iter")
+        out = []
+        if feasible(it):
+            self.cover(it, f"loop{k}.body", stmt.lineno)
+            for s in self.run_block(stmt.body, [it]):
+                if s.flow in ("normal", "continue"):
+                    s.flow = "normal"
+                    for e, t in self.spec_conj(lc["invariant"], s, {"idx": vint(idx + 1)}, entry):
+                        self.oblige(s, t, "inv.preserve", f"loop{k}.inv.preserve[{e[:50]}]", stmt.lineno)
+                elif s.flow == "break":
+                    s.flow = "normal"
+                    out.append(s)
+                else:
+                    out.append(s)
+        for e, t in self.spec_conj(lc["invariant"], ex, {"idx": vint(n)}, entry):
+            ex.assume(t)
+        ex.trace.append(f"loop{k}:exit")
+        self.apply_use(lc.get("use_at_exit", []), ex)
+        out.append(ex)
         return out
 
     def for_over(self, stmt, st, coll: V):
@@ -768,6 +841,8 @@ class Exec(Engine):
         # the frame the name refers to the entry value (rebinding is not a mutation of the argument)
         rebound = {t.id for n in ast.walk(self.fn) if isinstance(n, (ast.Assign, ast.AugAssign, ast.AnnAssign))
                    for t in (n.targets if isinstance(n, ast.Assign) else [n.target]) if isinstance(t, ast.Name)} & set(c.params)
+        # ... likewise a parameter name used as a loop target (for parent, child in ...: `child` is a parameter of _add_edges_within_module_hierarchy)
+        rebound |= {nm for n in ast.walk(self.fn) if isinstance(n, ast.For) for nm in self._target_names(n.target)} & set(c.params)
         n_norm = 0
         for i, s in enumerate(finals):
             for p_ in rebound:
